@@ -188,8 +188,11 @@ def evaluate(case):
             import contextlib
             import io
             pkg = "gen_c19"
-            qp = os.path.join(d, "queries.graphql")
-            open(qp, "w").write(case["queries"])
+            if isinstance(case["queries"], dict):
+                _, qp = genpkg.write_inputs(os.path.join(d, "qroot"), "type Query { x: Int }", case["queries"])
+            else:
+                qp = os.path.join(d, "queries.graphql")
+                open(qp, "w").write(case["queries"])
             sec = {"queries_path": qp, "target_package_name": pkg, "target_package_path": d, "include_comments": "none"}
             if schema_arg is not None:
                 sp, _ = genpkg.write_inputs(d, schema_arg, None)
@@ -241,19 +244,38 @@ def build_cases(tier):
     # extra directory shapes: a non-graphql file and an empty sub-directory must be ignored
     files = {"a.graphql": "\n".join(DEFS[:3]) + "\n", "b.gql": "\n".join(DEFS[3:]) + "\n", "README.md": "not graphql {", "sub/notes.txt": "type Broken {"}
     cases.append(dict(label="dir_with_foreign_files", queries=OPSETS["ops1"], opset="ops1", source={"kind": "dir", "files": files}, tags={"source:dir", "foreign_files"}))
+    # unusual file and directory names: dot-prefixed, brackets / spaces / glob characters, deep nesting, sibling file and directory of one name
+    odd_places = [(".hidden/", "part", ".graphql"), ("", ".dotfile", ".gql"), ("a/.b/c/", "part", ".graphqls"), ("[x]/", "part", ".graphql"), ("sp ace/", "pa rt", ".graphql"),
+                  ("st*r/", "part", ".gql"), ("q?/", "part", ".graphql"), ("l1/l2/l3/l4/l5/", "part", ".graphql"), ("types/", "types", ".graphql"), ("", "types", ".graphql"),
+                  ("dir.graphql/", "part", ".graphql"), ("", "UPPER", ".graphql"), ("ünï/", "pärt", ".graphql")]
+    for (folder, stem, ext) in odd_places:
+        for k in (1, 3, 5):
+            files = {f"{folder}{stem}{ext}": "\n".join(DEFS[:k]) + "\n", "zz_rest.graphql": "\n".join(DEFS[k:]) + "\n"}
+            cases.append(dict(label="odd_names", queries=OPSETS["ops1"], opset="ops1", source={"kind": "dir", "files": files}, tags={"source:dir", "odd_names", f"place:{folder}{stem}{ext}"}))
+            if k == 3:
+                # the same walker serves queries_path: operations split the same way
+                qfiles = {f"{folder}{stem}{ext}": OPSETS["ops1"].split("\n")[0] + "\n", "zz_rest.graphql": "\n".join(OPSETS["ops1"].split("\n")[1:]) + "\n"}
+                cases.append(dict(label="odd_names_queries", queries=qfiles, opset="ops1", source={"kind": "file"}, tags={"source:file", "odd_names", "queries_dir", f"place:{folder}{stem}{ext}"}))
     # failures
     for mode in ("invalid_utf8_body", "latin1_html_body", "invalid_url", "status100", "status301", "status404", "status500", "non_json", "json_array", "no_data", "errors", "errors_with_data", "data_not_object", "data_null",
                  "data_without_schema", "truncated_schema", "schema_null"):
         cases.append(dict(label="introspection_failure", queries=OPSETS["ops1"], opset="ops1", source={"kind": "introspection", "answer": mode}, expect="IntrospectionError", tags={f"failure:{mode}"}))
     # headers / TLS flag
-    for hv, env, want in (({"Authorization": "Bearer lit"}, {}, {"Authorization": "Bearer lit"}), ({"Authorization": "$VERIF_TOK", "X-Plain": "p"}, {"VERIF_TOK": "s3cret"}, {"Authorization": "s3cret", "X-Plain": "p"}), ({}, {}, {})):
-        for verify in (True, False, None):
+    ENV = {"VERIF_TOK": "s3cret", "VERIF_DOLLAR": "$ecret-9f3a$1", "VERIF_REF": "$VERIF_TOK", "VERIF_SPACES": " padded "}
+    HVALS = {"lit": "Bearer lit", "dollar_mid": "a$b", "dollar_end": "cost$", "env": "$VERIF_TOK", "env_value_starts_with_dollar": "$VERIF_DOLLAR", "env_value_names_other_variable": "$VERIF_REF",
+             "env_spaces": "$VERIF_SPACES", "empty": ""}
+    resolve = lambda v: ENV[v[1:]] if v.startswith("$") else v   # the documented rule, applied once
+    header_sets = [({"Authorization": "Bearer lit"}, {}, {"Authorization": "Bearer lit"}), ({"Authorization": "$VERIF_TOK", "X-Plain": "p"}, {"VERIF_TOK": "s3cret"}, {"Authorization": "s3cret", "X-Plain": "p"}), ({}, {}, {})]
+    header_sets += [({"X-H": v}, ENV, {"X-H": resolve(v)}) for v in HVALS.values()]
+    header_sets.append(({f"X-{k}": v for k, v in HVALS.items()}, ENV, {f"X-{k}": resolve(v) for k, v in HVALS.items()}))
+    for hi, (hv, env, want) in enumerate(header_sets):
+        for verify in ((True, False, None) if hi < 3 else (None,)):
             opts = {"remote_schema_headers": hv}
             if verify is not None:
                 opts["remote_schema_verify_ssl"] = verify
             for strat in ("client", "graphqlschema"):
                 cases.append(dict(label="headers", queries=OPSETS["ops1"], opset="ops1", source={"kind": "introspection", "env": env}, options=dict(opts), want_headers=want, want_verify=True if verify is None else verify,
-                                  strategy=strat, tags={"headers", "source:introspection", f"verify:{verify}", f"strategy:{strat}"}))
+                                  strategy=strat, tags={"headers", "source:introspection", f"verify:{verify}", f"strategy:{strat}"} | ({f"header_value:{k}" for k, v in HVALS.items() if v in hv.values()} if hi >= 3 else set())))
     for mode in ("status500", "non_json", "errors", "data_without_schema", "invalid_utf8_body"):
         cases.append(dict(label="introspection_failure", queries=OPSETS["ops1"], opset="ops1", source={"kind": "introspection", "answer": mode}, expect="IntrospectionError", strategy="graphqlschema",
                           tags={f"failure:{mode}", "strategy:graphqlschema"}))
